@@ -692,6 +692,98 @@ def r5(k: Kit) -> None:
                                   f.loc(x))
 
 
+def r6(k: Kit) -> None:
+    """One validator in flight; certificate permissions fail closed."""
+    from ..absint import evaluate, Obj, NotEvaluable
+    rep = k.rep
+    idx = k.idx
+    rep.rule('C05.R6', 'an auth object starts a new asynchronous validator '
+             'only after cancelling the previous one (a superseded validator '
+             'that finishes late would authenticate the user name of a newer '
+             'request); check_certificate_permission / get_certificate_option '
+             'evaluated for no certificate, a certificate with an empty option '
+             'set and one with options: only "no certificate" grants by '
+             'default')
+    sites = 0
+    for fi in idx.iter_funcs(['auth']):
+        if fi.cls is None or not idx.is_subclass(fi.cls, 'Auth'):
+            continue
+        if fi.name == '__init__':
+            continue       # construction: no earlier validator can exist
+        g = None
+        for n, v in k.stores_to(fi, 'self._coro'):
+            if v is None or (isinstance(v, ast.Constant) and v.value is None):
+                continue
+            g = g or k.cfg(fi)
+            sites += 1
+            canc = [x.id for x, c in k.calls_named(fi, 'cancel', 'self')]
+            w = g.path(g.entry, n.id, blocked_nodes=canc)
+            rep.check(bool(canc) and w is None, 'C05.R6',
+                      key(fi, 'cancel before new validator'),
+                      'the previous validator task is cancelled before a new '
+                      'one is stored',
+                      'a new validator task replaces self._coro without '
+                      'cancelling the old one: the orphan can no longer be '
+                      'cancelled by a later USERAUTH_REQUEST and its late '
+                      'success is reported under the new user name',
+                      k.loc(fi, n))
+    rep.floor('C05.R6', 'validator task stores', sites, 1)
+    SRV = 'connection.SSHServerConnection.'
+    for name, kind in (('check_certificate_permission', 'perm'),
+                       ('get_certificate_option', 'opt')):
+        fi = k.func(SRV + name)
+        body = [st for st in fi.node.body if not (
+            isinstance(st, ast.Expr) and isinstance(st.value, ast.Constant))]
+        bad = None
+        n = 0
+        for opts in ('none', 'empty', 'some'):
+            for present in (False, True):
+                if opts != 'some' and present:
+                    continue
+                n += 1
+
+                def on_call(nm, args, env, opts=opts, present=present):
+                    if nm == 'self._cert_options.get':
+                        if present:
+                            return 'GRANTED'
+                        return args[1] if len(args) > 1 else None
+                    if nm == 'cast':
+                        return args[1]
+                    return Obj('x')
+                val = {'self._cert_options': None if opts == 'none' else
+                       () if opts == 'empty' else Obj('OPTS')}
+                try:
+                    o = evaluate(idx, fi.module, body, val,
+                                 {'permission': 'pty', 'option': 'o',
+                                  'default': 'DEFAULT'}, on_call)
+                except NotEvaluable as exc:
+                    rep.error('C05.R6', key(fi, 'not-evaluable'), str(exc))
+                    bad = 'error'
+                    break
+                asked = bool(o.called('self._cert_options.get'))
+                if kind == 'perm':
+                    want = True if opts == 'none' else \
+                        ('GRANTED' if present else False)
+                else:
+                    want = 'DEFAULT' if opts == 'none' or not present \
+                        else 'GRANTED'
+                if o.kind != 'return' or o.value != want or \
+                        (opts != 'none' and not asked):
+                    bad = bad or (f'certificate options {opts}'
+                                  f'{" with the entry" if present else ""}: '
+                                  f'returns {o.value!r}, expected {want!r}')
+            if bad == 'error':
+                break
+        if bad == 'error':
+            continue
+        rep.check(bad is None, 'C05.R6', key(fi, 'certificate option table'),
+                  f'{n} states: only the absence of a certificate grants by '
+                  'default; an empty option set grants nothing',
+                  f'{bad}: a certificate whose option set is empty is '
+                  'treated as "no certificate" and every permit-* '
+                  'restriction is lifted', fi.loc(fi.node))
+
+
 def run(idx, rep, tier):
     k = Kit(idx, rep)
     rep.assumptions += NOT_DECIDED
@@ -700,3 +792,4 @@ def run(idx, rep, tier):
     r3(k)
     r4(k)
     r5(k)
+    r6(k)
